@@ -47,7 +47,12 @@ def cases(rng, tier):
         yield ("gate", {"gate": name, "params": []})
     for _ in range(reps * 2):
         r = rng.random()
-        if r < 0.25:
+        if r < 0.1:
+            # close to (but not at) a specialised Weyl point: D8 class
+            g_ = rng.choice(["rzx", "xx_plus_yy", "xx_minus_yy"])
+            th_ = rng.choice([0, math.pi / 2, math.pi, 2 * math.pi]) + rng.choice([-1, 1]) * rng.uniform(1e-6, 8e-5)
+            yield ("kak", {"gate": g_, "params": [th_] if g_ == "rzx" else [th_, 0.25]})
+        elif r < 0.25:
             yield ("kak", {"gate": "rzx", "params": [gen.rand_angle(rng)]})
         elif r < 0.5:
             yield ("kak", {"gate": rng.choice(["xx_plus_yy", "xx_minus_yy"]), "params": [gen.rand_angle(rng), rng.uniform(-3, 3)]})
@@ -57,6 +62,8 @@ def cases(rng, tier):
             q = math.pi / 4
             corner = rng.choice([(0, 0, 0), (q, 0, 0), (q, q, 0), (q, q, q), (q, q, -q), (q / 2, 0, 0), (q, q / 2, 0), (q, q, q / 2),
                                  (q / 2, q / 2, q / 2), (q / 3, q / 5, q / 7)])
+            if rng.random() < 0.5:
+                corner = tuple(x + rng.uniform(-4e-5, 4e-5) for x in corner)
             yield ("kak", {"gate": "weyl", "params": list(corner), "seeds": [rng.randrange(10 ** 6) for _ in range(4)]})
     for bad in ["h", "ccx", "unbound_rzz", "unbound_cp", "opaque2q", "measure", "barrier2", "unbound_unitary_like"]:
         yield ("refuse", {"gate": bad})
@@ -109,7 +116,7 @@ def _env(kind, payload, gate=None):
 
 def _weyl(gate):
     from qiskit.synthesis import TwoQubitWeylDecomposition
-    return TwoQubitWeylDecomposition(gate.to_matrix())
+    return TwoQubitWeylDecomposition(gate.to_matrix(), fidelity=None)
 
 
 def _u_of(gate):
